@@ -56,7 +56,7 @@ def cases(draw):
             m = dict(first)  # the same malformed text in several cells
         first = first or m
         dmg.append({'row': i, 'col': k, **m})
-    case = {'doc': doc, 'damage': dmg}
+    case = {'doc': doc, 'damage': dmg, 'file': draw(st.booleans())}  # imported from a file in half of the cases
     if draw(st.integers(0, 3)) == 0:
         # blank lines (kernpy skips them): error line numbers must still be the physical ones
         case['blanks'] = sorted(set(draw(st.lists(st.integers(0, len(doc['rows']) - 1), min_size=1, max_size=3))))
@@ -89,9 +89,18 @@ def check(case):
         phys[i] = len(out_lines)  # 1-based physical line of abstract row i
     text2 = '\n'.join(out_lines) + '\n'
     try:
-        kd2, errs = kp.loads(text2)
+        if case.get('file'):
+            import os
+            import tempfile
+            with tempfile.TemporaryDirectory(prefix='kv_c12_') as td:
+                path = os.path.join(td, 'damaged.krn')
+                with open(path, 'w', encoding='utf-8', newline='') as f:
+                    f.write(text2)
+                kd2, errs = kp.load(path)
+        else:
+            kd2, errs = kp.loads(text2)
     except Exception as e:  # noqa
-        raise Bad('import-raised', f'loads raised {type(e).__name__}: {e} for\n{text2}')
+        raise Bad('import-raised', f'{"load(file)" if case.get("file") else "loads"} raised {type(e).__name__}: {e} for\n{text2}')
     problems = []
     got_err = sorted((e.line, e.encoding) for e in errs)
     strict_exp = sorted((phys[r], d['t']) for (r, c), d in dmg.items() if d['typ'] in KERNLIKE and d['strict'])
